@@ -5,6 +5,7 @@ package main
 // trusted base and is listed in evidence.
 
 import (
+	"bytes"
 	"fmt"
 	"go/types"
 	"hash/crc32"
@@ -96,8 +97,31 @@ func init() {
 		return SliceV{p, n, n}
 	})
 	reg("internal/bytealg.Index internal/bytealg.IndexString", func(in *Interp, fn *ssa.Function, args []Value) Value {
-		in.fail("bytealg.Index is not modelled")
-		return nil
+		// concrete operands only (tag and path parsing)
+		get := func(v Value) ([]byte, bool) {
+			var p Ptr
+			var n int
+			switch x := v.(type) {
+			case SliceV:
+				p, n = x.P, x.Len
+			case StrV:
+				p, n = x.P, x.Len
+			}
+			out := make([]byte, n)
+			for i, b := range in.bytesOf(p, n) {
+				if !b.IsConst() {
+					return nil, false
+				}
+				out[i] = byte(b.val)
+			}
+			return out, true
+		}
+		a, ok1 := get(args[0])
+		b, ok2 := get(args[1])
+		if !ok1 || !ok2 {
+			in.fail("bytealg.Index on symbolic bytes is not modelled")
+		}
+		return in.ctx.Const(64, uint64(int64(bytes.Index(a, b))))
 	})
 
 	// ---- hash/crc32 ----
